@@ -188,4 +188,203 @@ theorem addResults_map (l : List Key) (a g : Key → Int) :
   simp only [Function.comp]
   rw [lookupD_map, if_pos hk]
 
+/-! ### association lists of raw results -/
+
+theorem getAssoc_setAssoc_ne {β : Type} (k n : String) (v : β) (l : List (String × β)) (h : k ≠ n) :
+    getAssoc n (setAssoc k v l) = getAssoc n l := by
+  induction l with
+  | nil => rfl
+  | cons e t ih =>
+    obtain ⟨k', w⟩ := e
+    unfold setAssoc
+    by_cases h1 : k' = k
+    · subst h1
+      simp [getAssoc, h]
+    · by_cases h2 : k' = n
+      · subst h2
+        simp [h1, getAssoc]
+      · simp only [h1, if_false]
+        simp only [getAssoc, List.find?_cons, h2, decide_false] at ih ⊢
+        exact ih
+
+theorem getAssoc_setAssoc_eq {β : Type} (k : String) (v w0 : β) (l : List (String × β))
+    (h : getAssoc k l = some w0) : getAssoc k (setAssoc k v l) = some v := by
+  induction l with
+  | nil => simp [getAssoc] at h
+  | cons e t ih =>
+    obtain ⟨k', w⟩ := e
+    unfold setAssoc
+    by_cases h1 : k' = k
+    · simp [h1, getAssoc]
+    · simp only [h1, if_false]
+      simp only [getAssoc, List.find?_cons, h1, decide_false] at ih h ⊢
+      exact ih h
+
+/-! ### further helpers (distinct strata, sorted names, frame conditions of the observation loop) -/
+
+theorem filter_eq_length_one {β : Type} [DecidableEq β] (l : List β) (hnd : l.Nodup) (a : β) (h : a ∈ l) :
+    (l.filter (fun k => decide (a = k))).length = 1 := by
+  induction l with
+  | nil => cases h
+  | cons c cs ih =>
+    rw [List.nodup_cons] at hnd
+    by_cases hc : a = c
+    · subst hc
+      have : cs.filter (fun k => decide (a = k)) = [] := by
+        rw [List.filter_eq_nil_iff]
+        intro k hk
+        have : a ≠ k := fun e => hnd.1 (e ▸ hk)
+        simp [this]
+      simp [this]
+    · have hmem : a ∈ cs := by
+        rcases List.mem_cons.mp h with e | e
+        · exact absurd e hc
+        · exact e
+      simp [hc, ih hnd.2 hmem]
+
+theorem stratumSum_of_no_eligible (k : Key) (rows : List Row) (h : rows.filter Row.eligible = []) :
+    stratumSum k rows = 0 := by
+  simp [stratumSum, h]
+
+theorem observeOne_frame (c : Ctx) (time : Int) (rows : List RawRow) (mapped : List (List (String × Option String)))
+    (o : Obs) (i : ObsInput) (n : String) (hn : o.name ≠ n) :
+    getAssoc n (observeOne c time rows mapped o i).adding = getAssoc n c.adding ∧
+    (observeOne c time rows mapped o i).strats = c.strats := by
+  unfold observeOne
+  cases o.kind with
+  | adding =>
+    simp only
+    cases getAssoc o.name c.adding with
+    | none => exact ⟨rfl, rfl⟩
+    | some acc => exact ⟨getAssoc_setAssoc_ne _ _ _ _ hn, rfl⟩
+  | concat =>
+    simp only
+    cases getAssoc o.name c.concat with
+    | none => exact ⟨rfl, rfl⟩
+    | some acc => exact ⟨rfl, rfl⟩
+
+theorem observeOne_strats (c : Ctx) (time : Int) (rows : List RawRow) (mapped : List (List (String × Option String)))
+    (o : Obs) (i : ObsInput) : (observeOne c time rows mapped o i).strats = c.strats := by
+  unfold observeOne
+  cases o.kind with
+  | adding => simp only; cases getAssoc o.name c.adding <;> rfl
+  | concat => simp only; cases getAssoc o.name c.concat <;> rfl
+
+theorem stepObs_frame (time : Int) (rows : List RawRow) (mapped : List (List (String × Option String)))
+    (inputs : List ObsInput) (c : Ctx) (o : Obs) (n : String) (hn : o.name ≠ n) :
+    getAssoc n (stepObs time rows mapped inputs c o).adding = getAssoc n c.adding ∧
+    (stepObs time rows mapped inputs c o).strats = c.strats := by
+  unfold stepObs
+  cases inputs.find? (fun i => i.name = o.name) with
+  | none => exact ⟨rfl, rfl⟩
+  | some i => exact observeOne_frame c time rows mapped o i n hn
+
+theorem foldl_stepObs_frame (time : Int) (rows : List RawRow) (mapped : List (List (String × Option String)))
+    (inputs : List ObsInput) (os : List Obs) (c : Ctx) (n : String) (hn : ∀ o ∈ os, o.name ≠ n) :
+    getAssoc n (os.foldl (stepObs time rows mapped inputs) c).adding = getAssoc n c.adding ∧
+    (os.foldl (stepObs time rows mapped inputs) c).strats = c.strats := by
+  induction os generalizing c with
+  | nil => exact ⟨rfl, rfl⟩
+  | cons o0 os ih =>
+    rw [List.foldl_cons]
+    have h0 := stepObs_frame time rows mapped inputs c o0 n (hn o0 List.mem_cons_self)
+    have h1 := ih (stepObs time rows mapped inputs c o0) (fun o ho => hn o (List.mem_cons_of_mem _ ho))
+    exact ⟨h1.1.trans h0.1, h1.2.trans h0.2⟩
+
+theorem mem_insertSorted (a b : String) (l : List String) : b ∈ insertSorted a l ↔ b = a ∨ b ∈ l := by
+  induction l with
+  | nil => simp [insertSorted]
+  | cons c t ih =>
+    unfold insertSorted
+    split
+    · simp
+    · simp only [List.mem_cons, ih]
+      constructor
+      · rintro (h | h | h)
+        · exact .inr (.inl h)
+        · exact .inl h
+        · exact .inr (.inr h)
+      · rintro (h | h | h)
+        · exact .inr (.inl h)
+        · exact .inl h
+        · exact .inr (.inr h)
+
+theorem mem_sortStrings (b : String) (l : List String) : b ∈ sortStrings l ↔ b ∈ l := by
+  induction l with
+  | nil => simp [sortStrings]
+  | cons c t ih =>
+    simp only [sortStrings, List.foldr_cons, mem_insertSorted, List.mem_cons] at ih ⊢
+    rw [ih]
+
+theorem nodup_eraseDups (l : List String) : l.eraseDups.Nodup := by
+  generalize hn : l.length = n
+  induction n using Nat.strongRecOn generalizing l with
+  | _ n ih =>
+    cases l with
+    | nil => simp
+    | cons a as =>
+      rw [List.eraseDups_cons, List.nodup_cons]
+      constructor
+      · rw [List.mem_eraseDups, List.mem_filter]; simp
+      · subst hn
+        exact ih _ (Nat.lt_succ_of_le (List.length_filter_le _ _)) _ rfl
+
+theorem nodup_insertSorted (a : String) (l : List String) (h : a ∉ l) (hl : l.Nodup) : (insertSorted a l).Nodup := by
+  induction l with
+  | nil => simp [insertSorted]
+  | cons c t ih =>
+    rw [List.nodup_cons] at hl
+    unfold insertSorted
+    split
+    · rw [List.nodup_cons]; exact ⟨h, List.nodup_cons.mpr hl⟩
+    · rw [List.nodup_cons, mem_insertSorted]
+      refine ⟨?_, ih (fun hm => h (List.mem_cons_of_mem _ hm)) hl.2⟩
+      rintro (e | e)
+      · exact h (e ▸ List.mem_cons_self)
+      · exact hl.1 e
+
+theorem nodup_sortStrings (l : List String) (hl : l.Nodup) : (sortStrings l).Nodup := by
+  induction l with
+  | nil => simp [sortStrings]
+  | cons c t ih =>
+    rw [List.nodup_cons] at hl
+    have : sortStrings (c :: t) = insertSorted c (sortStrings t) := rfl
+    rw [this]
+    exact nodup_insertSorted c _ (fun hm => hl.1 ((mem_sortStrings c t).mp hm)) (ih hl.2)
+
+theorem eq_of_name_eq {l : List Obs} (hnd : (l.map (·.name)).Nodup) {a b : Obs} (ha : a ∈ l) (hb : b ∈ l)
+    (h : a.name = b.name) : a = b := by
+  induction l with
+  | nil => cases ha
+  | cons x xs ih =>
+    rw [List.map_cons, List.nodup_cons] at hnd
+    rcases List.mem_cons.mp ha with rfl | ha' <;> rcases List.mem_cons.mp hb with rfl | hb'
+    · rfl
+    · exact absurd (h ▸ List.mem_map_of_mem hb') hnd.1
+    · exact absurd (h ▸ List.mem_map_of_mem ha') hnd.1
+    · exact ih hnd.2 ha' hb'
+
+theorem observeOne_obs (c : Ctx) (time : Int) (rows : List RawRow) (mapped : List (List (String × Option String)))
+    (o : Obs) (i : ObsInput) : (observeOne c time rows mapped o i).obs = c.obs := by
+  unfold observeOne
+  cases o.kind with
+  | adding => simp only; cases getAssoc o.name c.adding <;> rfl
+  | concat => simp only; cases getAssoc o.name c.concat <;> rfl
+
+theorem foldl_stepObs_obs (time : Int) (rows : List RawRow) (mapped : List (List (String × Option String)))
+    (inputs : List ObsInput) (os : List Obs) (c : Ctx) :
+    (os.foldl (stepObs time rows mapped inputs) c).obs = c.obs ∧
+    (os.foldl (stepObs time rows mapped inputs) c).strats = c.strats := by
+  induction os generalizing c with
+  | nil => exact ⟨rfl, rfl⟩
+  | cons o0 os ih =>
+    rw [List.foldl_cons]
+    have h1 := ih (stepObs time rows mapped inputs c o0)
+    have h0 : (stepObs time rows mapped inputs c o0).obs = c.obs ∧ (stepObs time rows mapped inputs c o0).strats = c.strats := by
+      unfold stepObs
+      cases inputs.find? (fun i => i.name = o0.name) with
+      | none => exact ⟨rfl, rfl⟩
+      | some i => exact ⟨observeOne_obs _ _ _ _ _ _, observeOne_strats _ _ _ _ _ _⟩
+    exact ⟨h1.1.trans h0.1, h1.2.trans h0.2⟩
+
 end Viv.Results
